@@ -145,7 +145,7 @@ def coq_deps(rel):
         prev = src
         src = re.sub(r"\(\*(?:(?!\(\*|\*\)).)*\*\)", " ", src, flags=re.S)
     out = []
-    for m in re.finditer(r"\b(?:From\s+(\w+)\s+)?Require\s+(?:Import\s+|Export\s+)?((?:[\w\.]+\s*)+)\.(?=\s|$)", src):
+    for m in re.finditer(r"\b(?:From\s+(\w+)\s+)?Require\s+(?:Import\s+|Export\s+)?((?:[A-Za-z_]\w*(?:\.[A-Za-z_]\w*)*\s*)+)\.(?=\s|$)", src):
         frm, mods = m.group(1), m.group(2).split()
         for mod in mods:
             parts = mod.split(".")
